@@ -20,12 +20,14 @@ SPEC = {
             'roots, bad signature, wrong or missing payload kind), 6 signature corruptions, duplicates, unknown ids, ids of '
             'failed sends or of the other phase, node X under the id sent to node Y (F12b; also with an empty observation, the transformAndSortObservations [0] shape), nodes that were not asked or are '
             'unknown, garbage bytes; "villain" mode: Byzantine nodes vote the honest root with exactly one defect so that a '
-            'missing check tips a threshold. Every item is delivered only when the controller goroutine is parked in select '
+            'missing check tips a threshold; "attack" mode: the initial request timer is due, all observers of one lane except the '
+            'attacker stay silent and the attacker answers EVERY request id it holds with all lanes it observes (asked under that '
+            'id or not) and its own root, so a node that ever holds two request ids votes twice. Every item is delivered only when the controller goroutine is parked in select '
             '(runtime.Stack, one P), so the run is deterministic; race items (a response or a cancellation handed over at the '
             'next select entry together with a possibly due timer) are compared against the set of outcomes the model allows; '
             'context cancellation at a random parked point, at a select entry, or before the first select. Observable: result '
             'kind, returned (lane, root) list, signature order, every Send (kind, addressee, request id, chains), the '
-            'attributed observations of the signature request, and whether every VerifyReportSignatures call saw exactly the '
+            'attributed observations of the signature request (executable property: no node twice, F_home+1 distinct carriers per lane), and whether every VerifyReportSignatures call saw exactly the '
             'report handed back. non-trivial = a ReportSignatureRequest was sent or the call succeeded; distinct by full input',
     'trusted': [
         'ed25519 verification and RMNCrypto.VerifyReportSignatures are oracles (model: Section variables edv / vrs; harness: '
